@@ -563,3 +563,26 @@ def r3(P: Project, R: Report) -> None:
             R.need(n_cons >= 1, "anchor: no construction of the stdio client found in the package")
             continue
         R.ob("R4", f"{f.qual}: the batch processor starts unversioned", False, where, f"built as `{ast.unparse(c)[:60]}`: the reader applies that version's batching rule before anything is negotiated")
+
+    # ------------------------------------------------------------------ R5: the mode changes only when the handshake says so
+    R.rule("R5", "the batching mode belongs to the negotiated version: inside the stdio client the batch processor's version is set by `set_protocol_version` alone (called with a handshake's answer, C03-R4) — the reader and the router never set it from what they read")
+    setters = []
+    for f in P.methods(cli).values():
+        for c in walk_local(f.node):
+            if not isinstance(c, ast.Call):
+                continue
+            nm = call_name(c)
+            if nm.endswith(".update_protocol_version") or (nm == "self.set_protocol_version") or (nm.endswith("BatchProcessor") and f.name != "__init__"):
+                setters.append((f, c))
+        for s_ in walk_local(f.node):
+            if isinstance(s_, (ast.Assign, ast.AugAssign, ast.AnnAssign)):
+                for t_ in (s_.targets if isinstance(s_, ast.Assign) else [s_.target]):
+                    tt = ast.unparse(t_)
+                    if tt in ("self.batch_processor.protocol_version", "self.batch_processor.batching_enabled") or (tt == "self.batch_processor" and f.name != "__init__"):
+                        setters.append((f, s_))
+    R.need(any(f.name == "set_protocol_version" for f, _c in setters), "anchor: the stdio client's set_protocol_version no longer updates the batch processor")
+    for f, c in setters:
+        ok_ = f.name == "set_protocol_version"
+        R.ob("R5", f"{f.qual}: does not set the batching mode itself", ok_, f"{f.module.rel}:{c.lineno}",
+             f"`{ast.unparse(c)[:70]}` changes the version the batch processor works with from inside {f.name}: the mode then follows whatever that code saw last (a result that merely looks like an initialize answer, a header, a guess) instead of the version the handshake settled on — batches are accepted after a handshake at a version without batching, or refused after one with it",
+             sample=f"R5 {f.qual}: {ast.unparse(c)[:50]}")
